@@ -121,22 +121,48 @@ def to_list(t):
 
 
 CONTAINERS = ["list", "tuple", "np.int64", "np.int32", "np.int16", "np.uint8", "np.int8", "torch.int64", "torch.int32", "torch.int16", "torch.uint8", "torch.int8"]
+# the same logical content in another memory layout: transposed strides, a column cut out of a wider array, every
+# second element of a longer array
+LAYOUT_KINDS = ["np.int64:T", "np.int32:T", "torch.int64:T", "torch.int16:T", "np.int64:col", "torch.int64:col", "np.int64:strided", "torch.int32:strided"]
 _CMAX = {"int64": 2**63 - 1, "int32": 2**31 - 1, "int16": 2**15 - 1, "uint8": 255, "int8": 127}
 
 
-def pick_container(rng, maxval, minval=0):
+def pick_container(rng, maxval, minval=0, layouts=True):
     """A container kind (recorded in the case) whose dtype can hold every entry of the states."""
-    ok = [c for c in CONTAINERS if "." not in c or (maxval <= _CMAX[c.split(".")[1]] and (minval >= 0 or "uint" not in c) and minval >= -_CMAX[c.split(".")[1]])]
+
+    def fits(c):
+        dt = c.split(":")[0].split(".")[1]
+        return maxval <= _CMAX[dt] and (minval >= 0 or "uint" not in dt) and minval >= -_CMAX[dt]
+
+    ok = [c for c in CONTAINERS + (LAYOUT_KINDS if layouts else []) if "." not in c or fits(c)]
     return rng.choice(ok)
 
 
-def container(kind, rows):
-    """The same state(s) in the named container: AnyStateType is Union[torch.Tensor, np.ndarray, list]."""
+def container(kind, rows, mshape=None):
+    """The same state(s) in the named container: AnyStateType is Union[torch.Tensor, np.ndarray, list].
+    `mshape` = (n, m) gives matrix-group states their n x m shape in array containers with a layout."""
+    single = not (rows and isinstance(rows[0], (list, tuple)))
     if kind == "list":
-        return [list(map(int, r)) for r in rows] if rows and isinstance(rows[0], (list, tuple)) else list(map(int, rows))
+        return list(map(int, rows)) if single else [list(map(int, r)) for r in rows]
     if kind == "tuple":
-        return tuple(tuple(map(int, r)) for r in rows) if rows and isinstance(rows[0], (list, tuple)) else tuple(map(int, rows))
-    lib, dt = kind.split(".")
-    if lib == "np":
-        return np.array(rows, dtype=getattr(np, dt))
-    return torch.tensor(rows, dtype=getattr(torch, dt))
+        return tuple(map(int, rows)) if single else tuple(tuple(map(int, r)) for r in rows)
+    base, _, layout = kind.partition(":")
+    lib, dt = base.split(".")
+    a = np.array(rows, dtype=getattr(np, dt))
+    if layout:
+        if mshape is not None and mshape[0] > 1 and mshape[1] > 1:
+            a = a.reshape(tuple(mshape) if single else (-1,) + tuple(mshape))
+        if layout == "col" and not single:
+            layout = "strided"
+        if layout == "T" and a.ndim < 2:
+            layout = "col"
+        if layout == "T":
+            a = np.ascontiguousarray(np.swapaxes(a, -1, -2)).swapaxes(-1, -2)
+        elif layout == "col":
+            big = np.stack([a.reshape(-1), np.full(a.size, 7, dtype=a.dtype)], axis=1)
+            a = big[:, 0:1]
+        elif layout == "strided":
+            big = np.repeat(a, 2, axis=-1)
+            big[..., 1::2] = 7
+            a = big[..., ::2]
+    return a if lib == "np" else torch.from_numpy(a) if layout else torch.tensor(rows, dtype=getattr(torch, dt))
